@@ -37,20 +37,32 @@ Section Inline.
   Variable rf : nat.
 
   (* ---------- build1 is a chain of token steps ---------- *)
-  Theorem build1_step f d s s' : build1 fo pr rf (S f) d s = ROk tt s' ->
+  (* no token that [build1 fuel] reads from [s] on is a word of the enum builder *)
+  Fixpoint enum_free (fuel : nat) (s : state) : Prop :=
+    match fuel with
+    | O => True
+    | S f =>
+      forall s1 t s2, pre_run fo rf s = ROk tt s1 -> get_token pr s1 = ROk t s2 ->
+        enum_tok s2 t = false /\ forall s3, tok_act fo pr rf f t s2 = ROk tt s3 -> enum_free f s3
+    end.
+
+  Theorem build1_step f d s s' : enum_free (S f) s -> build1 fo pr rf (S f) d s = ROk tt s' ->
     (exists s1 s2, pre_run fo rf s = ROk tt s1 /\ get_token pr s1 = ROk BEnd s2 /\
                    build_end d s2 = ROk tt s') \/
-    (exists s3, tstep fo pr rf f s s3 /\ build1 fo pr rf f d s3 = ROk tt s').
+    (exists s3, tstep fo pr rf f s s3 /\ enum_free f s3 /\ build1 fo pr rf f d s3 = ROk tt s').
   Proof.
-    rewrite build1_S. unfold bind at 1.
+    intros EF. rewrite build1_S. unfold bind at 1.
     destruct (pre_run fo rf s) as [[] s1|? ? ?| |] eqn:E1; try discriminate.
     unfold bind at 1. destruct (get_token pr s1) as [t s2|? ? ?| |] eqn:E2; try discriminate.
+    destruct (EF s1 t s2 E1 E2) as [Hn Hk].
     destruct t as [|w|c].
     - intros E. left. exists s1, s2. repeat split; assumption.
     - unfold bind. destruct (tok_act fo pr rf f (BWord w) s2) as [[] s3|? ? ?| |] eqn:E3; try discriminate.
-      intros E. right. exists s3. split; [|exact E]. exists s1, (BWord w), s2. repeat split; try assumption. discriminate.
+      intros E. right. exists s3. split; [|split; [apply Hk; reflexivity|exact E]].
+      exists s1, (BWord w), s2. repeat split; try assumption. discriminate.
     - unfold bind. destruct (tok_act fo pr rf f (BLit c) s2) as [[] s3|? ? ?| |] eqn:E3; try discriminate.
-      intros E. right. exists s3. split; [|exact E]. exists s1, (BLit c), s2. repeat split; try assumption. discriminate.
+      intros E. right. exists s3. split; [|split; [apply Hk; reflexivity|exact E]].
+      exists s1, (BLit c), s2. repeat split; try assumption. discriminate.
   Qed.
 
   Lemma bpath_cons s s1 x : anystep fo pr rf s s1 -> bpath fo pr rf 0 s1 x -> bpath fo pr rf 0 s x.
@@ -60,19 +72,19 @@ Section Inline.
     - eapply bp_snoc; [exact IH|exact Sy|lia].
   Qed.
 
-  Theorem build1_path : forall f d s s', build1 fo pr rf f d s = ROk tt s' ->
+  Theorem build1_path : forall f d s s', enum_free f s -> build1 fo pr rf f d s = ROk tt s' ->
     exists x s1, bpath fo pr rf 0 s x /\ pre_run fo rf x = ROk tt s1 /\ get_token pr s1 = ROk BEnd s' /\
                  depth s' = d /\ has_pending_flow s' = false.
   Proof.
-    induction f as [|f IH]; intros d s s' E; [discriminate|].
-    destruct (build1_step f d s s' E) as [(s1 & s2 & E1 & E2 & E3)|(s3 & St & E3)].
+    induction f as [|f IH]; intros d s s' EF E; [discriminate|].
+    destruct (build1_step f d s s' EF E) as [(s1 & s2 & E1 & E2 & E3)|(s3 & St & EF3 & E3)].
     - exists s, s1. split; [apply bp_nil|]. split; [exact E1|].
       unfold build_end, bind, get in E3.
       destruct (negb (length (nested s2) =? d)%nat) eqn:En; [discriminate|].
       destruct (has_pending_flow s2) eqn:Ep; [discriminate|].
       injection E3 as <-. split; [exact E2|]. split; [|exact Ep].
       apply negb_false_iff, Nat.eqb_eq in En. exact En.
-    - destruct (IH d s3 s' E3) as (x & s1 & Hb & R).
+    - destruct (IH d s3 s' EF3 E3) as (x & s1 & Hb & R).
       exists x, s1. split; [|exact R]. eapply bpath_cons; [exists f; exact St|exact Hb].
   Qed.
 
